@@ -17,6 +17,7 @@ import (
 	"net/http"
 	"net/http/httptest"
 	"os"
+	"runtime"
 	"sort"
 	"strconv"
 	"strings"
@@ -48,6 +49,7 @@ type Engine struct {
 	busyL      net.Listener
 	Addrs      []AddrInfo
 	Same       [][2]string // (cur, new): the real Proxy.Differs says the listen address is the same
+	SameBad    []string    // pairs on which Differs disagrees with an independent reading of "same address"
 	envLines   []string
 	lastPop    string
 	CurFile    string
@@ -115,11 +117,46 @@ func New(d *drv.Driver) *Engine {
 			}
 		}
 	}
+	// … and compare it with an independent reading of "denotes the same address": same port,
+	// and either both hosts are wildcards or both are the same IP
+	for _, c := range e.Addrs {
+		for _, n := range e.Addrs {
+			a, err1 := net.ResolveTCPAddr("tcp", c.Spelling)
+			b, err2 := net.ResolveTCPAddr("tcp", n.Spelling)
+			if err1 != nil || err2 != nil {
+				continue
+			}
+			au := len(a.IP) == 0 || a.IP.IsUnspecified()
+			bu := len(b.IP) == 0 || b.IP.IsUnspecified()
+			ref := a.Port == b.Port && ((au && bu) || (!au && !bu && a.IP.Equal(b.IP)))
+			got := false
+			for _, p := range e.Same {
+				got = got || (p[0] == c.Spelling && p[1] == n.Spelling)
+			}
+			if got != ref {
+				e.SameBad = append(e.SameBad, fmt.Sprintf("Differs(%q -> %q) says same=%v", c.Spelling, n.Spelling, got))
+			}
+		}
+	}
 	var err error
 	e.busyL, err = net.Listen("tcp", ":"+strconv.Itoa(e.BusyPort))
 	if err != nil {
 		panic(err)
 	}
+	// (the foreign listener also serves as an upstream that accepts: E7's histories connect
+	// clients through the proxies while requests run)
+	go func(l net.Listener) {
+		for {
+			c, err := l.Accept()
+			if err != nil {
+				return
+			}
+			go func() {
+				io.Copy(io.Discard, c)
+				c.Close()
+			}()
+		}
+	}(e.busyL)
 	return e
 }
 
@@ -531,12 +568,46 @@ func (e *Engine) run(ops []string, gen func(snap string) string, n int, res *rep
 		shape = append(shape, fmt.Sprintf("%s %s %d", method, routeShape(path), r.status))
 		snap = after
 	}
+	// ---- C15: once every proxy is stopped, no goroutine of a proxy's life cycle is left - also
+	// of the proxies whose start was refused during the episode (busy port, bad address)
+	if e.wants("C15") {
+		srv.Collection.Clear()
+		if left, at := proxyLoops(500 * time.Millisecond); left > 0 {
+			return ops, fail(len(ops)-1, "oracle", "C15", "0", fmt.Sprintf("%d at %s", left, at),
+				"after every proxy was stopped and removed, goroutines of a proxy's accept loop remain (they, and the proxy objects they hold, stay for the life of the process)", "e4:C15:proxy-goroutine-left")
+		}
+	}
 	res.Episodes++
 	if e.seen.Add(strings.Join(shape, ">")) {
 		res.Distinct++
 		res.AddSample(map[string]any{"requests": ops, "outcome": strings.Join(shape, " > ")}, 6)
 	}
 	return ops, nil
+}
+
+var loopStack = make([]byte, 1<<21)
+
+// proxyLoops counts the goroutines that run a proxy's accept loop or its listener watchdog, waiting
+// up to d for them to end (they end asynchronously after stop() returns).
+func proxyLoops(d time.Duration) (int, string) {
+	deadline := time.Now().Add(d)
+	for {
+		n := runtime.Stack(loopStack, true)
+		cnt, at := 0, ""
+		for _, g := range strings.Split(string(loopStack[:n]), "\n\n") {
+			for _, fn := range []string{"toxiproxy/v2.(*Proxy).server", "toxiproxy/v2.(*Proxy).freeBlocker"} {
+				if strings.Contains(g, fn) {
+					cnt++
+					at = fn[strings.Index(fn, "("):]
+					break
+				}
+			}
+		}
+		if cnt == 0 || time.Now().After(deadline) {
+			return cnt, at
+		}
+		time.Sleep(5 * time.Millisecond)
+	}
 }
 
 func routeShape(path string) string {
